@@ -240,6 +240,16 @@ def run_unit(unit, st, tier):
             # an instance of another class (mostly rejected) as well
             others = [c for c in gen.kit_classes() if c.__module__ == cls.__module__ and c is not cls][:2]
             texts += [c16.kit_instances(o)[0][0] for o in others]
+            # an instance carrying one more (illegal) site of the class cutter in the middle of its wildcard run
+            g = gen.geometry_of(cls.cutter)
+            w = "ACTTGA" + g.site + "TCAAGT"
+            try:
+                t2, _ = gen.instantiate(cls.structure(), fill_scheme=0, star_text=w, forbid=["GGTCTC", "CGTCTC", "GAAGAC"])
+                texts.append(t2 + "ACGTA")
+                t3, _ = gen.instantiate(cls.structure(), fill_scheme=0, star_text="ACTTGA" + g.rsite + "TCAAGT", forbid=["GGTCTC", "CGTCTC", "GAAGAC"])
+                texts.append(t3 + "ACGTA")
+            except Exception:
+                pass
             for text in texts:
                 ref = typing_obs(cls, text.upper())
                 for t in ("L", "A0", "A1"):
